@@ -184,6 +184,15 @@ pub(super) mod udp {
 
         fn decode(&mut self, src: &mut BytesMut) -> Result<Option<Self::Item>, Self::Error> {
             if !src.is_empty() {
+                // address, length(2), CRLF, payload: wait until the whole packet has arrived
+                let head = address::try_decode_at(src, 0)? + 2 + trojan::CR_LF.len();
+                if src.remaining() < head {
+                    return Ok(None);
+                }
+                let len = u16::from_be_bytes([src[head - 4], src[head - 3]]) as usize;
+                if src.remaining() < head + len {
+                    return Ok(None);
+                }
                 let addr = address::decode(src)?;
                 let len = src.get_u16();
                 src.advance(trojan::CR_LF.len());
